@@ -1,6 +1,6 @@
 (* C03 - hard constraints hold at every evaluation.  Statements only. *)
 From Coq Require Import List ZArith Bool.
-From MV Require Import Common.Num Core.Machine Core.Machine_Proofs Core.DE Core.DE_Proofs Core.NM.
+From MV Require Import Common.Num Common.Order Core.Machine Core.Machine_Proofs Core.DE Core.DE_Proofs Core.NM Core.NM_Proofs.
 Import ListNotations.
 
 (* solvers that nest the constraints inside the objective (Nelder-Mead, Powell, the abstract solver): every evaluated
@@ -26,6 +26,35 @@ Theorem C03_de_evaluated_points_constrained :
   Inv_cons N (fst sc) -> Inv_cons N (fst (run N inf _ _ (de_algo N inf de2) sc ops)).
 Proof. exact de_evaluated_points_constrained. Qed.
 Print Assumptions C03_de_evaluated_points_constrained.
+
+(* "... and for the result": in every clean run of either differential-evolution solver (no population re-installation, no
+   re-decoration that moves members: the situations of finding F9) the reported best and every member were evaluated at a
+   point that is an output of the constraints in force at that evaluation, or have not been evaluated at all (top energy) *)
+Theorem C03_de_result_constrained :
+  forall (N : Num) (inf : T N) (de2 : bool) (npop : nat),
+  StrictWeak (T N) (ltb N) -> (forall p, is_top N (add N inf p)) -> is_top N inf ->
+  forall (ops : list (op N (de_in N))) (sc : sys N * de N),
+  Forall (clean_op N _ (de_ok_in N npop) false) ops -> P_de N inf npop (fst sc) (snd sc) -> Inv_cons N (fst sc) ->
+  let r := run N inf _ _ (de_algo N inf de2) sc ops in
+  constrained_call N (fst r) (de_best N inf (snd r)) /\ Forall (constrained_call N (fst r)) (members N (snd r)).
+Proof. exact de_result_constrained. Qed.
+Print Assumptions C03_de_result_constrained.
+
+(* Nelder-Mead, result clause: in every clean run (idempotent constraints, not replaced in the middle of the run) the reported
+   best is a fixed point of the constraints function - it satisfies the constraints - as soon as the initial evaluation is logged *)
+Theorem C03_nm_result_constrained :
+  forall (N : Num) (inf : T N), (forall p, is_top N (add N inf p)) -> is_top N inf ->
+  forall cons0 : vec N -> vec N, (forall x, cons0 (cons0 x) = cons0 x) ->
+  forall (ops : list (op N (nm_in N))) (sc : sys N * nm N),
+  Forall (clean_op N _ (nm_ok_in N) true) ops -> P_nm N inf cons0 (fst sc) (snd sc) ->
+  let r := run N inf _ _ (nm_algo N inf) sc ops in
+  stepmon N (fst r) <> [] -> sim N (snd r) <> [] ->
+  cons0 (fst (nm_best N inf (snd r))) = fst (nm_best N inf (snd r)).
+Proof.
+  intros N inf Ht Hi cons0 Hid ops sc Hc HP r Hs Hn.
+  exact (proj1 (proj2 (nm_reported_best N inf Ht Hi cons0 Hid ops sc Hc HP Hs Hn))).
+Qed.
+Print Assumptions C03_nm_result_constrained.
 
 Example C03_instances : forall (N : Num) (inf : T N) t ndim npop ops1 ops2,
   Inv_cons N (fst (run N inf _ _ (nm_algo N inf) (init_sys N inf t, nm_init N inf ndim) ops1)) /\
